@@ -35,6 +35,31 @@ Theorem C14_plan_good : ∀ (c : cfg) (s : l2state) (e : gmap N Z) (p : plan),
     bk s' = bk s ∧ next_l1 s' = next_l1 s ∧ next_l2 s' = next_l2 s ∧ pairs s' = pairs s ∧ info s' = info s.
 Proof. exact plan_good. Qed.
 
+(* The same outcome for a plan that names an EXISTING validator with its OWN consensus key
+   (keep the sequencer, drop every other validator, swap the executors) - no extra room is
+   needed, so it also works when stored validators = MaxValidators.  Together with
+   C14_plan_good this leaves exactly three failing structural situations: a stored operator
+   given a different key (D8), a key in use by another operator (D9), a new validator at the
+   cap (D10). *)
+Theorem C14_plan_same_validator : ∀ (c : cfg) (s : l2state) (e : gmap N Z) (p : plan),
+  mid_inv (vs s) e → plan_same (vs s) p →
+  (N.of_nat (size (vals (vs s))) ≤ p_maxv (prm s))%N →
+  params_valid c (prm s) = true → Forall (λ x, is_Some (resolve c x)) (pl_execs p) →
+  ∃ s' ups,
+    end_block c s (Some p) = Some (s', ups) ∧
+    batch_wellformed e ups ∧
+    engine_apply e ups = Some ({[pl_key p := 1%Z]} : gmap N Z) ∧
+    vals (vs s') = {[pl_op p := {| v_key := pl_key p; v_pow := 1 |}]} ∧
+    idx (vs s') = {[pl_key p := pl_op p]} ∧
+    last (vs s') = {[pl_op p := 1%Z]} ∧
+    blk_inv (vs s') ({[pl_key p := 1%Z]} : gmap N Z) ∧
+    p_execs (prm s') = pl_execs p ∧
+    p_admin (prm s') = p_admin (prm s) ∧ p_maxv (prm s') = p_maxv (prm s) ∧ p_hist (prm s') = p_hist (prm s) ∧
+    p_mingas (prm s') = p_mingas (prm s) ∧ p_whitelist (prm s') = p_whitelist (prm s) ∧
+    p_hookgas (prm s') = p_hookgas (prm s) ∧
+    bk s' = bk s ∧ next_l1 s' = next_l1 s ∧ next_l2 s' = next_l2 s ∧ pairs s' = pairs s ∧ info s' = info s.
+Proof. exact plan_same_validator. Qed.
+
 (* At a height without a plan the end blocker is the one of the empty table: the ordinary
    validator update of C13, parameters (executors included) and everything else untouched. *)
 Theorem C14_only_at_h : ∀ (c : cfg) (t : plan_table) (s : l2state) (h : N),
@@ -70,7 +95,8 @@ Proof. exact register_Some. Qed.
 
 (* The full statement "for ALL plans" is false of the faithful model (and of the code): three
    computed witnesses on a state reached from a valid genesis - the known findings D8, D9, D10.
-   D8: operator address already stored -> no update, engine keeps key 1, state has key 2. *)
+   D8: operator address already stored under ANOTHER key (the plan's key is not indexed) -> no
+   update, engine keeps key 1, state has key 2. *)
 Theorem C14_reuse_operator_refuted :
   ∃ (g : vgenesis) (p : plan) st0 ups0 s',
     genesis_valid g ∧ genesis_chain g 0 = Some (st0, ups0) ∧
@@ -82,7 +108,8 @@ Theorem C14_reuse_operator_refuted :
     ch_eng st0 !! 1%N = Some 1%Z ∧ state_set (vs s') !! 1%N = None ∧ state_set (vs s') !! 2%N = Some 1%Z.
 Proof. exact reuse_operator_refuted. Qed.
 
-(* D9: consensus key in use -> the batch lists the key twice, the engine rejects it, the
+(* D9: consensus key in use by ANOTHER operator (the plan's operator is not stored) -> the batch
+   lists the key twice, the engine rejects it, the
    key's index entry is deleted although the plan's validator carries it. *)
 Theorem C14_reuse_key_refuted :
   ∃ (g : vgenesis) (p : plan) st0 ups0 s' ups,
@@ -107,6 +134,7 @@ Theorem C14_at_cap_refuted :
 Proof. exact at_cap_refuted. Qed.
 
 Print Assumptions C14_plan_good.
+Print Assumptions C14_plan_same_validator.
 Print Assumptions C14_only_at_h.
 Print Assumptions C14_register_only_its_height.
 Print Assumptions C14_register_spec.
